@@ -296,8 +296,13 @@ SB_extends(SB* self, PyObject* other)
         return NULL;
     }
 
-    if (PyDict_GetItem(implied, other) != NULL)
+    if (PyDict_GetItemWithError(implied, other) != NULL)
         Py_RETURN_TRUE;
+    if (PyErr_Occurred()) {
+        /* ``other`` could not be hashed or compared: let that
+           propagate, like ``other in self._implied`` does. */
+        return NULL;
+    }
     Py_RETURN_FALSE;
 }
 
@@ -756,8 +761,10 @@ IB__adapt__(PyObject* self, PyObject* obj)
             return NULL;
         }
 
-        implements = PyDict_GetItem(implied, self) != NULL;
+        implements = PyDict_GetItemWithError(implied, self) != NULL;
         Py_DECREF(decl);
+        if (!implements && PyErr_Occurred())
+            return NULL;
     } else {
         /* decl is probably a security proxy.  We have to go the long way
            around.
